@@ -138,12 +138,25 @@ def run(chk):
     later = [(t, v, s0) for t, v, s0 in stores(L) if norm(t) == RID and not (rid and s0 is rid[0])]
     ok_ob = True
     det_ob = []
+    is_x = spec.cond_term(f"{RID} == 'X'")
     for t, v, s0 in later:
-        guards = [a for a in ancestors(s0) if isinstance(a, ast.If)]
-        g_x = any(norm(a.test) in (f"{RID}=='X'", f"'X'=={RID}") for a in guards)
+        # the conjunction of the tests that control the store (nested ifs, one merged condition, a walrus inside it: all the same)
+        conds = []
+        n_, p_ = s0, parent(s0)
+        while p_ is not None and p_ is not L:
+            if isinstance(p_, ast.If):
+                try:
+                    c_ = Tx().cond(p_.test)
+                except symx.Unsupported:
+                    c_ = ("atom", "opaque:" + norm(p_.test)[:40])
+                conds.append(c_ if n_ in p_.body else symx.c_not(c_))
+            n_, p_ = p_, parent(p_)
+        pc = symx.c_and(*conds) if conds else True
         det_ob.append(norm(s0)[:80])
-        if not (g_x and "ImageMask" in norm(parent(parent(s0))) if parent(s0) is not None else False) and not g_x:
-            ok_ob = False
+        escape = symx.c_and(pc, symx.c_not(is_x))
+        atoms = symx.cond_atoms(escape) if escape not in (True, False) else set()
+        if escape is True or (escape is not False and any(symx.eval_cond(escape, row) for row in symx.rows(atoms))):
+            ok_ob = False  # the store can happen although the record id is not the placeholder
         if "image" not in norm(v).lower() and "match" not in norm(v).lower():
             ok_ob = False
     chk.ob("C19.R2", where, "record-id-deobfuscation", ok_ob,
